@@ -332,8 +332,70 @@ def handleRun (f : List String) : String × String × String :=
       (diff, judge, tags)
   | _ => ("bad-fields", "-", "-")
 
+/-! ### real-time glue stream (judge only)
+
+`C08.glue <scenario> <lifecycler>;...`, lifecycler = `id/kind/periodMs/startMs/stopMs/writes`,
+writes = `phase:offsetMs:ownEntryTs:wallSecond,...`: every committed CAS of the REAL running service.
+Statement judged: "its heartbeat timestamp never goes backwards and, while the store accepts its writes, is
+refreshed once per heartbeat period" — tolerant to load: in every window of k ≥ 4 periods inside the time the
+service is alive (start .. stop requested; the whole Starting / observe phase included) the own entry was
+refreshed at least max 1 (k − 2) times. -/
+
+structure GW where
+  ms : Int
+  ts : Int
+  wall : Int
+
+def parseGW (s : String) : Option GW :=
+  match s.splitOn ":" with
+  | [_, ms, ts, wall] => do pure { ms := (← ms.toInt?), ts := (← ts.toInt?), wall := (← wall.toInt?) }
+  | _ => none
+
+/-- returns (reasons, number of windows checked) -/
+def judgeGlueOne (period start stop : Int) (ws : List GW) : List String × Nat := Id.run do
+  let mut bad : List String := []
+  -- never backwards
+  let mut prev : Option Int := none
+  for w in ws do
+    match prev with
+    | some p => if w.ts < p then bad := "heartbeat-backwards" :: bad
+    | none => pure ()
+    prev := some w.ts
+  -- a refresh = a committed write that carries the current time (second resolution, one second of slack)
+  let refreshes := (ws.filter fun w => w.ts ≥ w.wall - 1 && w.ms ≤ stop).map (·.ms)
+  let anchors := start :: refreshes
+  let mut nwin : Nat := 0
+  for a in anchors do
+    let mut k : Int := 4
+    while a + k * period ≤ stop do
+      nwin := nwin + 1
+      let cnt : Int := (refreshes.filter fun t => a < t && t ≤ a + k * period).length
+      if cnt < max (1 : Int) (k - 2) then bad := "heartbeat-not-refreshed-in-window" :: bad
+      k := k + 1
+  return (bad.eraseDups, nwin)
+
+def handleGlue (f : List String) : String × String × String :=
+  match f with
+  | [_name, lcs] =>
+    let res := (lcs.splitOn ";").map fun l =>
+      match l.splitOn "/" with
+      | [_id, kind, period, start, stop, writes] =>
+        match period.toInt?, start.toInt?, stop.toInt?, (if writes == "-" then some [] else (writes.splitOn ",").mapM parseGW) with
+        | some p, some a, some b, some ws =>
+          if p ≤ 0 then (["glue-bad-period"], 0, kind) else
+          let r := judgeGlueOne p a b ws
+          (r.1, r.2, kind)
+        | _, _, _, _ => (["glue-unparsable"], 0, kind)
+      | _ => (["glue-unparsable"], 0, "?")
+    let bad := (res.flatMap (·.1)).eraseDups
+    let nwin : Nat := res.foldl (fun acc r => acc + r.2.1) 0
+    let kinds := "".intercalate (res.map (·.2.2))
+    ("-", (if bad.isEmpty then "-" else ",".intercalate bad), s!"glue=1 kinds={kinds} windows={if nwin == 0 then "0" else if nwin < 10 then "1-9" else "10+"}")
+  | _ => ("bad-fields", "-", "glue=1")
+
 def handle (cmd : String) (f : List String) : String × String × String :=
   if cmd == "C08.run" then handleRun f
+  else if cmd == "C08.glue" then handleGlue f
   else ("unknown-cmd", "-", "-")
 
 end OracleC08
